@@ -419,6 +419,10 @@ def main(argv=None):
         assert os.path.realpath(opticomlib.__file__).startswith(os.path.realpath(REPO)), opticomlib.__file__
         try:
             mod.run(ctx)
+            if mod.ID != 'C14' and os.environ.get('MCX_NO_HISTORY') != '1':
+                from mcx.props import c14b
+                if mod.ID in c14b.HISTORY_GROUPS:
+                    c14b.run_history_part(ctx, c14b.HISTORY_GROUPS[mod.ID])
         except Exception:
             traceback.print_exc()
             ctx.harness_errors.append(('run', '-', traceback.format_exc()))
